@@ -407,3 +407,27 @@ Example ex_sequence :
   Ok (live_after [OpInvalidate [83;101;116;117;112]] (live ex_parsed),
       live_after [OpInvalidate [83;101;116;117;112]] (live ex_parsed), [0; 37; 78]).
 Proof. vm_compute. reflexivity. Qed.
+
+(* ---------------------------------------------------------------------------------------- *)
+(* Kernel ties: the small pure helpers of pkg/uefi/nvram.go, as TRANSCRIBED FROM THE GO SOURCE on every run
+   (translator/Kernels.sh -> Gen/GoKernels.v), equal the functions of the model (Proofs/KernelTieNvar.v).
+   A change of one of these Go functions breaks the lemma. *)
+From Fiano Require Import Base.Bytes Base.GoInt Gen.GoKernels Proofs.KernelTieNvar.
+Local Open Scope Z_scope.
+
+Theorem C10_kernel_NVarAttribute_IsValid :
+  forall a, go_NVarAttribute_IsValid a = Nvar.ATTR a nvar_attr_valid.
+Proof. exact go_NVarAttribute_IsValid_tie. Qed.
+Print Assumptions C10_kernel_NVarAttribute_IsValid.
+
+Theorem C10_kernel_NVar_IsValid :
+  forall t, go_NVar_IsValid t = Nvar.is_valid_type t.
+Proof. exact go_NVar_IsValid_tie. Qed.
+Print Assumptions C10_kernel_NVar_IsValid.
+
+Theorem C10_kernel_Read3Size :
+  forall a b c, 0 <= a < 256 -> 0 <= b < 256 -> 0 <= c < 256 ->
+  go_Read3Size [a; b; c] = le_dec [a; b; c].
+Proof. exact go_Read3Size_nvar_tie. Qed.
+Print Assumptions C10_kernel_Read3Size.
+
